@@ -14,6 +14,7 @@ import (
 	"os"
 	"runtime/debug"
 	"sort"
+	"sync/atomic"
 	"time"
 )
 
@@ -72,6 +73,18 @@ type vCtx struct {
 	sigSeen  map[string]int
 	sampleN  int
 	distinct map[[16]byte]struct{}
+	beatAt   atomic.Int64
+	beatCase atomic.Value // func() any
+}
+
+// beat records that the check is about to run the case described by f. A
+// watchdog turns "no beat for a long time" into a no-progress violation that
+// names the case (the code under test does not terminate on it).
+func (c *vCtx) beat(f func() any) {
+	c.beatAt.Store(time.Now().UnixNano())
+	if f != nil {
+		c.beatCase.Store(f)
+	}
 }
 
 func (c *vCtx) thorough() bool { return c.tier == "thorough" }
@@ -225,7 +238,45 @@ func VerifMain() {
 			ck.companion(c)
 		}
 	default:
-		ck.run(c)
+		vWatch(c, ck, write, func() { ck.run(c) })
 	}
 	write()
+}
+
+// vWatch runs body under a no-progress watchdog.
+func vWatch(c *vCtx, ck *vCheck, write func(), body func()) {
+	limit := 240 * time.Second
+	if v := os.Getenv("VERIF_STALL_S"); v != "" {
+		if n, err := time.ParseDuration(v + "s"); err == nil {
+			limit = n
+		}
+	}
+	c.beat(nil)
+	done := make(chan struct{})
+	go func() {
+		defer close(done)
+		body()
+	}()
+	tk := time.NewTicker(2 * time.Second)
+	defer tk.Stop()
+	for {
+		select {
+		case <-done:
+			return
+		case <-tk.C:
+			if time.Since(time.Unix(0, c.beatAt.Load())) > limit {
+				var cs any = "unknown (no case recorded)"
+				if f, ok := c.beatCase.Load().(func() any); ok && f != nil {
+					cs = f()
+				}
+				b, _ := json.Marshal(cs)
+				c.res.Exhaustive = false
+				c.res.Violations = append(c.res.Violations, vViolation{Sig: ck.id + "|no-progress",
+					Msg:    fmt.Sprintf("the code under test made no progress for %v while running this case (non-termination or deadlock)", limit),
+					Replay: b})
+				write()
+				os.Exit(0)
+			}
+		}
+	}
 }
